@@ -72,7 +72,8 @@ def wmw_intensity(ctx):
 def write_shape(ctx):
     P = ctx.P
     res = Result('WRITE-SHAPE', 'every non-constructor store to the intensity '
-                 'is i *= f, i = i*f, or i[mask] = 0: zero stays zero and '
+                 'is i *= f, i = i*f, i[mask] = 0 or i = where(mask, 0, i): '
+                 'zero stays zero and '
                  'nothing is created')
     for st in _i_stores(ctx):
         f = st.func
@@ -89,6 +90,12 @@ def write_shape(ctx):
             c = const_of(s.value)
             ok = c is not None and c == 0
             why = 'masked store of a non-zero value'
+        elif isinstance(s, ast.Assign) and isinstance(s.value, ast.Call) \
+                and unparse(s.value.func) == 'np.where' and \
+                len(s.value.args) == 3 and const_of(s.value.args[1]) == 0 \
+                and unparse(s.value.args[2]) == unparse(st.target):
+            # i = where(mask, 0, i): elementwise either zero or unchanged
+            ok = True
         elif isinstance(s, ast.Assign):
             # i = i * f : the old value must divide the new one
             try:
@@ -130,8 +137,19 @@ def beer_lambert(ctx):
         if isinstance(fn, ast.Attribute) and fn.attr == 'k' and \
                 isinstance(fn.value, ast.Name) and fn.value.id == 'material':
             return Rat.atom('K')
-    ev = fn_eval(P, f, sym=sym, inline=inline,
-                 choose=lambda t, e: True if 'material' in unparse(t) else None)
+    def choose_lit(t, e):
+        # a transmitting ray that reaches the surface: the mask of blocked /
+        # lost rays is False for it
+        u = unparse(t)
+        if 'material' in u:
+            return True
+        v = e.env.get(u) if isinstance(t, ast.Name) else None
+        if (isinstance(v, Rat) and any(a.startswith('mask:')
+                                       for a in v.atoms())) or \
+                'self.i == 0' in u or 'isfinite' in u:
+            return False
+        return None
+    ev = fn_eval(P, f, sym=sym, inline=inline, choose=choose_lit)
     exps = [(a, x[0]) for a, (k, x) in sym.defs.items() if k == 'exp']
     args = [x for a, x in exps]
     want = -Rat.const(4) * Rat.atom('pi') * Rat.atom('K') * Rat.atom('t') * \
@@ -153,6 +171,28 @@ def beer_lambert(ctx):
         res.fail(ctx.finding('BEER-LAMBERT', f, f.node,
                              f'intensity after propagate is {inew}',
                              construct='propagate: intensity update'))
+    # blocked rays stay blocked: 0 * exp(-alpha * t) is nan when t is not
+    # finite (the ray misses the surface), so the zero has to be restored
+    # explicitly for rays that were dark before the step or do not arrive
+    from ..match import find, find_seq
+    keeps = find_seq(f, ['$m = (self.i == 0) | ~np.isfinite(t)',
+                         'self.i = np.where($m, 0.0, self.i)']) or \
+        find_seq(f, ['$m = self.i == 0', 'self.i[$m] = 0']) or \
+        find_seq(f, ['$m = (self.i == 0) | ~np.isfinite(t)',
+                     'self.i[$m] = 0']) or \
+        find(f, 'self.i = np.where(self.i == 0, 0.0, $x)') or \
+        find(f, 'self.i = np.where((self.i == 0) | ~np.isfinite(t), 0.0, $x)')
+    if keeps:
+        res.ok('rays with zero intensity (or that do not reach the surface) '
+               'are kept at zero, not 0 * nan')
+    else:
+        res.fail(ctx.finding(
+            'BEER-LAMBERT', f, f.node,
+            'propagate multiplies the intensity of every ray by '
+            'exp(-alpha t): for a blocked ray (i = 0) that misses the next '
+            'surface t is nan and 0 * nan = nan, so the ray is no longer '
+            'dark (analyses count it as transmitted)',
+            construct='propagate: dark rays stay dark'))
     # position update x += t L etc.
     for c, d in (('x', 'L'), ('y', 'M'), ('z', 'N')):
         v = ev.heap.get('self.' + c)
@@ -479,5 +519,9 @@ def derived_sync_rule(ctx):
     from .common import derived_sync
     return derived_sync(ctx, 'DERIVED-SYNC')
 
-RULES = [derived_sync_rule, c12_arg_names, no_stale, wmw_intensity, write_shape, beer_lambert, lost_write, aperture,
+def c17_coating_media(ctx):
+    from .C17 import coating_media as _r
+    return _r(ctx)
+
+RULES = [c17_coating_media, derived_sync_rule, c12_arg_names, no_stale, wmw_intensity, write_shape, beer_lambert, lost_write, aperture,
          coating_pair, record_intensity]
